@@ -320,6 +320,9 @@ func TestVerif_C13(t *testing.T) {
 				// a bad frame must be reported as such even when closing the recording it interrupts fails
 				frng := vNewRNG(uint64(myIdx), 5)
 				rig.motionS.stopFail = func() bool { return frng.Chance(60) }
+				// ... and when closing the continuous file fails as well
+				crng := vNewRNG(uint64(myIdx), 6)
+				rig.contS.stopFail = func() bool { return crng.Chance(60) }
 				c.Count("streams_with_failing_stops", 1)
 			}
 			badSeq := map[int]bool{}
